@@ -251,6 +251,36 @@ func init() {
 			}
 			plush.CacheEnabled = false
 		}
+		// the same page rendered alternately with contexts whose partialFeeder resolves one partial NAME to
+		// different sources (per request: locale, content type), cache off / on: what a partial renders
+		// to is a function of the source its own context's feeder returns, not of what was rendered before
+		{
+			page := `<ul><%= partial("row") %></ul><%= partial("row", {n: 1}) %>`
+			feeders := []map[string]string{{"row": `<li class="a"><%= n %></li>`}, {"row": `<li class="b"><%= n + 1 %></li>`}, {"row": `plain`}}
+			wants := []string{`OK:<ul><li class="a">7</li></ul><li class="a">1</li>`, `OK:<ul><li class="b">8</li></ul><li class="b">2</li>`, `OK:<ul>plain</ul>plain`}
+			for _, cache := range []bool{false, true, true} {
+				plush.CacheEnabled = cache
+				for step := 0; step < 7; step++ {
+					k := step % len(feeders)
+					parts := feeders[k]
+					res := ""
+					out, err := plush.Render(page, plush.NewContextWith(map[string]interface{}{"n": 7, "partialFeeder": func(name string) (string, error) { return parts[name], nil }}))
+					if err != nil {
+						res = "ERR:" + err.Error()
+					} else {
+						res = "OK:" + out
+					}
+					e.rep.Evaluations++
+					e.Count("feeder-per-context")
+					if res != wants[k] {
+						e.Violate("c13-nondeterministic", fmt.Sprintf("%q with the feeder of context %d rendered %q, want %q (step %d, cache %v): the result depends on what was rendered before", page, k, res, wants[k], step, cache), map[string]interface{}{"tmpl": page, "step": step, "cache": cache})
+						break
+					}
+				}
+			}
+			plush.CacheEnabled = false
+			plush.VerifCacheReset()
+		}
 	})
 }
 
